@@ -41,10 +41,19 @@ def run(tier="quick", seed=0):
         # of array code), core collections as sets / lists / one-shot iterators / generators
         form = ev % 12
         given = targets
+        # (the ORDER in which the chips are listed rotates too: as generated, reversed, top row first, shuffled)
+        order = list(targets)
+        if ev % 5 == 1:
+            order.reverse()
+        elif ev % 5 == 2:
+            order.sort(key=lambda c: (-c[1], c[0]))
+        elif ev % 5 == 3:
+            rng.shuffle(order)
+        given = dict((c, targets[c]) for c in order)
         if form in (3, 7, 11):
             import numpy as np
             it = (np.int32, np.int64, np.int32)[form // 4]
-            given = dict(((it(x), it(y)), cs) for (x, y), cs in targets.items())
+            given = dict(((it(x), it(y)), cs) for (x, y), cs in given.items())
         if form % 4 == 1:
             given = dict((k, sorted(cs)) for k, cs in given.items())
         elif form % 4 == 2:
